@@ -130,13 +130,22 @@ pub struct Job {
     /// record the onion payload bytes of every HTLC in the trace (C13 payload clause)
     #[serde(default)]
     pub payload: bool,
+    /// the chain height the lifecycle sees comes from the REAL BlockWatcher (started the way main.rs starts it, fed by
+    /// block_added notifications and its getinfo polls) instead of the simulated height
+    #[serde(default)]
+    pub realblocks: bool,
 }
 
-struct VBlocks;
+struct VBlocks {
+    real: Option<Arc<crate::block_watcher::BlockWatcher>>,
+}
 #[async_trait::async_trait]
 impl BlockProvider for VBlocks {
     async fn current_height(&self) -> u32 {
-        sim::with(|s| s.height)
+        match &self.real {
+            Some(w) => w.current_height().await,
+            None => sim::with(|s| s.height),
+        }
     }
 }
 
@@ -186,6 +195,8 @@ pub struct Driver {
     epi: usize,
     replay_pending: bool,
     wall_back: u64,
+    watcher: Option<Arc<crate::block_watcher::BlockWatcher>>,
+    watcher_stop: Option<tokio::sync::mpsc::Sender<()>>,
 }
 
 pub fn answer_json(i: u64, resp: &HtlcAcceptedResponse) -> Value {
@@ -320,6 +331,8 @@ impl Driver {
             epi: 0,
             replay_pending: false,
             wall_back: 0,
+            watcher: None,
+            watcher_stop: None,
             job,
         };
         for (k, h) in d.job.scen.htlcs.clone().into_iter().enumerate() {
@@ -351,7 +364,7 @@ impl Driver {
         let rpc = Arc::new(Rpc::new(String::new()));
         Arc::new(HtlcManager::new(HtlcManagerParams {
             allow_self_route_hints: c.selfhints,
-            block_provider: Arc::new(VBlocks),
+            block_provider: Arc::new(VBlocks { real: self.watcher.clone() }),
             cltv_delta: c.sdelta,
             local_pubkey: cat::local_pubkey(),
             mpp_timeout: Duration::from_secs(c.mpp),
@@ -574,6 +587,11 @@ impl Driver {
             "height" => {
                 let h = step["h"].as_u64().unwrap_or(0) as u32;
                 sim::with(|s| s.height = h);
+                if let Some(w) = self.watcher.clone() {
+                    // the block_added notification (in a task of its own: a watcher that blocks must not block the driver)
+                    tokio::spawn(async move { w.new_block(&crate::messages::BlockAdded { height: h }).await });
+                    settle().await;
+                }
                 self.line(json!({"ev":"height","h":h}));
             }
             "wp" => {
@@ -871,7 +889,47 @@ impl Driver {
     }
 
     /// Run until a crash (returns true) or the end of the job (false).
+    /// main.rs: `block_watcher.start(receiver).await?` before the plugin serves hooks.  The first getinfo is served at
+    /// once while start() waits for it; a start() that returns without waiting leaves the call to the scheduler.
+    async fn start_watcher(&mut self) {
+        use std::sync::Mutex as StdMutex;
+        self.watcher = None;
+        self.watcher_stop = None;
+        let (tx, rx) = tokio::sync::mpsc::channel::<()>(1);
+        let slot: Arc<StdMutex<Option<Arc<crate::block_watcher::BlockWatcher>>>> = Arc::new(StdMutex::new(None));
+        let slot2 = Arc::clone(&slot);
+        tokio::spawn(async move {
+            let mut w = crate::block_watcher::BlockWatcher::new(Arc::new(Rpc::new(String::new())));
+            let _ = w.start(rx).await;
+            *slot2.lock().unwrap() = Some(Arc::new(w));
+        });
+        for _ in 0..8 {
+            settle().await;
+            if slot.lock().unwrap().is_some() {
+                break;
+            }
+            let pending: Vec<(u64, CallSt)> = sim::with(|s| {
+                s.calls.values().filter(|c| c.method == "getinfo" && matches!(c.st, CallSt::Issued | CallSt::Executed)).map(|c| (c.id, c.st)).collect()
+            });
+            let dummy = self.build_manager();
+            for (id, st) in pending {
+                if st == CallSt::Issued {
+                    self.apply(&dummy, &json!({"a":"exec","sel":{"call":id},"fault":"none"})).await;
+                }
+                self.apply(&dummy, &json!({"a":"deliver","sel":{"call":id}})).await;
+            }
+        }
+        self.watcher = slot.lock().unwrap().clone();
+        self.watcher_stop = Some(tx);
+        if self.watcher.is_none() {
+            panic!("harness: BlockWatcher::start did not return");
+        }
+    }
+
     pub async fn epoch(&mut self) -> bool {
+        if self.job.realblocks {
+            self.start_watcher().await;
+        }
         let mgr = self.build_manager();
         if let Some(sched) = self.job.sched.clone() {
             while self.cursor < sched.len() {
